@@ -432,11 +432,11 @@ def rule_links(ctx, px):
     ctx.ob(R, m.rel, "no '..' or absolute literal component in path construction", not bad, "" if not bad else f"{bad}")
     # support files go under the base output path as well
     sg = px.func("nunavut.jinja", "SupportGenerator.generate_all")
-    cl_targets = [n for n in ast.walk(sg.node) if isinstance(n, ast.Assign) and any(isinstance(t, ast.Name) and t.id == "target_path" for t in n.targets)]
-    roots = [n.value for n in cl_targets]
-    ok = bool(roots) and all(bool(_calls(r, "get_support_output_folder")) for r in roots)
-    ws = [c for c in _calls(sg.node, "with_suffix")]
-    ok2 = bool(ws) and all(isinstance(c.func.value, ast.BinOp) and isinstance(c.func.value.right, ast.Attribute) and c.func.value.right.attr == "name" for c in ws if isinstance(c.func, ast.Attribute))
+    ws = [c for c in _calls(sg.node, "with_suffix") if isinstance(c.func, ast.Attribute)]
+    ok2 = bool(ws) and all(isinstance(c.func.value, ast.BinOp) and isinstance(c.func.value.op, ast.Div) and isinstance(c.func.value.right, ast.Attribute)
+                           and c.func.value.right.attr == "name" for c in ws)
+    roots = _closure(sg.node, [c.func.value.left for c in ws if isinstance(c.func.value, ast.BinOp)])
+    ok = any(_calls(r, "get_support_output_folder") for r in roots)
     ctx.ob(R, sg.module.rel, f"{sg.short} :: support files are placed under the support output folder by file name only", ok and ok2, "", sg.node.lineno)
     gs = px.func(NS, "Namespace.get_support_output_folder")
     rets = _returns(gs.node)
